@@ -204,7 +204,11 @@ def execute(kind, path, wcfg, ccfg, rcfg, both, seq, switch_rule="AnyOfMany", in
         el = dev.g.v.a
         for step in seq:
             cur = peek(el)
-            want = {"v1": v1, "v2": v2, "same": cur}[step]
+            if step == "near":
+                # a number that differs from the current one by less than the property's format (%.2f) shows: a change all the same
+                want = round((cur if cur is not None else v1) + 0.001, 6)
+            else:
+                want = {"v1": v1, "v2": v2, "same": cur}[step]
             if step == "same" and cur is None:
                 want = v1
             del log[:]
@@ -216,7 +220,7 @@ def execute(kind, path, wcfg, ccfg, rcfg, both, seq, switch_rule="AnyOfMany", in
                         ch = one_parts.OneText(name="A", value=want)
                         msg = M.NewTextVector(device="DEV", name="V", children=[ch])
                     elif kind == "number":
-                        ch = one_parts.OneNumber(name="A", value="%.2f" % want)
+                        ch = one_parts.OneNumber(name="A", value="%.6f" % want)
                         msg = M.NewNumberVector(device="DEV", name="V", children=[ch])
                     elif kind in ("switch", "switch-oneofmany"):
                         ch = one_parts.OneSwitch(name="A", value=want)
@@ -407,10 +411,11 @@ def judge(kind, path, wcfg, ccfg, rcfg, both, seq, obs, disabled=False):
     return fails
 
 
-def sequences(tier):
+def sequences(tier, kind=None):
     depth = 3 if tier == "quick" else 4
+    steps = ("v1", "v2", "same") + (("near",) if kind == "number" else ())
     for n in range(1, depth + 1):
-        for s in itertools.product(("v1", "v2", "same"), repeat=n):
+        for s in itertools.product(steps, repeat=n):
             yield s
 
 
@@ -424,7 +429,7 @@ def run_shard(shard):
             for both in (False, True):
                 if both and not (wcfg or ccfg):
                     continue
-                for seq in sequences(tier):
+                for seq in sequences(tier, kind):
                     variants = [(False, False)]
                     if len(seq) == 1 and not both:
                         variants.append((True, False))
